@@ -364,6 +364,25 @@ fn one_case(r: &mut Rng, id: usize, out: &mut String) {
                     f.mat.column_mut(j).fill(0.0);
                 }
             }
+            // rows / columns that are tiny but not zero (their squares underflow) are not zero rows / columns
+            if !all && r.chance(1, 4) {
+                with_pts = false; // apply() rounds on such a map: decided on the coefficients
+                let tiny = 2f64.powi(-600);
+                if m > 0 && n > 0 {
+                    if r.chance(1, 2) {
+                        let i = r.below(m);
+                        for j in 0..n {
+                            f.mat[[i, j]] = if r.chance(1, 3) { -tiny } else { tiny };
+                        }
+                        f.bias[i] = 0.0;
+                    } else {
+                        let j = r.below(n);
+                        for i in 0..m {
+                            f.mat[[i, j]] = if r.chance(1, 3) { -tiny } else { tiny };
+                        }
+                    }
+                }
+            }
             args.push(sx_aff(&f));
             let zr = op == "remove_zero_rows";
             let (s1, a) = rf("func", || if zr { f.remove_zero_rows() } else { f.remove_zero_columns() });
